@@ -4,6 +4,9 @@ Behaviour = basename of the executable that exec'd this file (see the stubs next
   ok reorder garbage_empty garbage_ragged garbage_missing garbage_length garbage_tree exit3 hang
   hang_ignore_term (never exits and ignores SIGTERM)
   sigkill (writes complete, valid output, then dies by SIGKILL: negative return code)
+  bigout (like ok, but first writes 200 KiB of progress messages to STDERR: more than a pipe buffer, so the program
+          blocks until somebody reads the pipe; it cannot be seen "finished" by polling alone)
+  garbage_swap (equal row lengths, right headers; row 0 has one symbol too many, row 1 one too few: the totals agree)
 Environment (inherited through Popen):
   C20_GATE     path; the tool blocks until this file exists (so the harness decides when it "finishes")
   C20_LOG      path; the tool appends what it produced (JSON lines), the oracle reads it
@@ -54,6 +57,10 @@ def main():
     if gate:
         while not os.path.exists(gate):
             time.sleep(0.002)
+    if behaviour == "bigout":
+        emit(event="bigout-begin")
+        sys.stderr.write(("progress " * 12 + "\n") * 2000)      # ~ 218 KiB > 64 KiB pipe buffer: blocks until drained
+        sys.stderr.flush()
     if behaviour == "exit3":
         sys.stderr.write("boom\nsecond line\n")
         emit(event="exit", code=3)
@@ -117,6 +124,12 @@ def main():
     if behaviour == "garbage_length":
         # equal row lengths, right headers, but row 0 has one residue more than input sequence 0
         rows[0][1] = rows[0][1][:-1] + "A"
+    if behaviour == "garbage_swap":
+        # the errors cancel: +1 symbol in row 0 (a trailing gap becomes a letter), -1 in row 1 (its last letter becomes a gap)
+        rows[0][1] = rows[0][1][:-1] + "A"
+        r1 = rows[1][1]
+        last = max(i for i, ch in enumerate(r1) if ch != "-")
+        rows[1][1] = r1[:last] + "-" + r1[last + 1:]
     if behaviour == "garbage_empty":
         text = ""
         rows = []
